@@ -471,7 +471,7 @@ pub fn c01(ctx: &mut Ctx) {
     ctx.bound("S3", ctx.tier.pick("SDES bodies: 1-2 words x 8 symbols, 3 words x 4 symbols", "SDES bodies: 1-2 words x 8 symbols, 3 words x 6 symbols, 4 words x 3 symbols (4 words x 4 symbols: C10 thorough)"));
     ctx.bound("S4", "raw FCI bodies: every length 0..=40 x first byte (all) x 4 second bytes x 3 fills");
     ctx.bound("S5", "every truncation and +1..+8 extension of W, with/without length resync");
-    ctx.bound("long chains", "chains of 7..130 well-formed tiles of mixed sizes x 12 tail variants");
+    ctx.bound("long chains", "chains of 7..1025 well-formed tiles of mixed sizes x 12 tail variants");
     ctx.bound("S6", "giants: 262144-byte packets of each type (4 fills), 65536 BYEs, two maximal packets, 262145 bytes, maximal SDES of minimal chunks, feedback packets of 65548 / 131072 / 262144 bytes under each FCI type's own gate (3 fills)");
     ctx.assume("the exempt calls are priv_prefix_len()/priv_prefix() on non-PRIV items (documented panic precondition); they are called on PRIV items only");
     ctx.assume("source scan: no Cell/RefCell/Mutex/Atomic/static mut/unsafe under /repo/src, so &self accessors cannot carry hidden state between calls (recorded, not relied upon: two orders and all pairs are executed anyway)");
